@@ -103,6 +103,20 @@ theorem logsum_eq (p : Params ℝ) (hn : 0 < p.n) (hp : PosP p) (e0 : Emis ℝ) 
     (logForward p e0 sites).ll = Real.log (pathSum p e0 sites) := by
   rw [logForward_ll p hn hp e0 he0 sites hs, fwdU_eq_pathSum]
 
+/-! ## The three algorithms agree -/
+
+/-- for strictly positive tables, every placement of restarts and every chunk size, the three
+classes return the same log-likelihood: the logarithm of the sum over all hidden paths -/
+theorem algorithms_agree (p : Params ℝ) (hn : 0 < p.n) (hp : PosP p) (maxSize : Nat) (e0 : Emis ℝ) (he0 : PosE e0)
+    (sites : List (Site ℝ)) (hs : PosS sites) :
+    (rescForward p e0 sites).logLik = Real.log (pathSum p e0 sites)
+    ∧ lowForward p maxSize e0 sites = Real.log (pathSum p e0 sites)
+    ∧ (logForward p e0 sites).ll = Real.log (pathSum p e0 sites) := by
+  have hnn : NonNegS sites := fun s h => (hs s h).nonneg
+  have h1 : (rescForward p e0 sites).logLik = Real.log (pathSum p e0 sites) := by
+    rw [← rescaled_eq p hp.nonneg e0 he0.nonneg sites hnn (rescaled_scales_pos p hn hp e0 he0 sites hs), Real.log_exp]
+  exact ⟨h1, by rw [lowmem_eq_rescaled p hp.nonneg maxSize e0 he0.nonneg sites hnn, h1], logsum_eq p hn hp e0 he0 sites hs⟩
+
 /-! ## Posterior probabilities (rescaled class) -/
 
 /-- For break points in `1 … T-1` (strictly increasing) and data of positive probability, every
